@@ -358,13 +358,38 @@ struct Conn {
     w: Option<tokio::io::WriteHalf<tokio::io::DuplexStream>>,
     buf: Vec<u8>,
     cell: Option<ActorCell>,
-    #[allow(dead_code)]
     is_server: bool,
     /// every challenge seen on this connection (either direction), for the `h=` table
     chals: Vec<u32>,
 }
 
+/// Bumped at every quiescence point; a watchdog thread aborts the run if the real code wedges
+/// the (single-threaded) runtime, e.g. by a busy loop.
+static PROGRESS: std::sync::atomic::AtomicU64 = std::sync::atomic::AtomicU64::new(0);
+
+fn start_watchdog(bin: &'static str) {
+    std::thread::spawn(move || {
+        let mut last = 0;
+        let mut idle = 0;
+        loop {
+            std::thread::sleep(Duration::from_secs(1));
+            let now = PROGRESS.load(std::sync::atomic::Ordering::Relaxed);
+            if now == last {
+                idle += 1;
+                if idle >= 20 {
+                    eprintln!("{bin}: no progress for 20 s - the code under test wedged the runtime (busy loop or deadlock)");
+                    std::process::exit(3);
+                }
+            } else {
+                idle = 0;
+                last = now;
+            }
+        }
+    });
+}
+
 async fn quiesce() {
+    PROGRESS.fetch_add(1, std::sync::atomic::Ordering::Relaxed);
     tokio::time::sleep(Duration::from_millis(1)).await;
 }
 
@@ -503,7 +528,7 @@ fn encode_desc(d: &str) -> Option<Vec<u8>> {
             } else {
                 l.split(';')
                     .filter_map(|e| e.split_once('^'))
-                    .map(|(n, c)| proto::auth::NameMessage { name: unword(n), flags: None, connection_string: unword(c), connection_id: 0 })
+                    .map(|(n, c)| proto::auth::NameMessage { name: unword(n), flags: None, connection_string: unword(c).replace('~', ":"), connection_id: 0 })
                     .collect()
             };
             ctl(Some(C::NodeSessions(proto::control::NodeSessions { sessions })))
@@ -532,6 +557,9 @@ struct World {
     label: u64,
     /// connections whose session has been seen dead
     dead: Vec<u64>,
+    transitive: bool,
+    /// a real TCP listener the adversary advertises in `NodeSessions` frames (transitive mode)
+    bait: Option<std::net::TcpListener>,
 }
 
 impl World {
@@ -551,6 +579,14 @@ impl World {
             probes: BTreeMap::new(),
             label: 0,
             dead: Vec::new(),
+            transitive,
+            bait: if transitive {
+                let l = std::net::TcpListener::bind("127.0.0.1:0").expect("bait listener");
+                l.set_nonblocking(true).expect("nonblocking");
+                Some(l)
+            } else {
+                None
+            },
         };
         // learn this node's connection string (the listener port is chosen by the OS): a throw-away
         // client-side session announces it in its first frame
@@ -602,11 +638,20 @@ impl World {
         quiesce().await;
         let mut tc = self.this_conn.clone();
         let conn = self.conns.get_mut(&k).unwrap();
-        let sent = conn.drain(&mut tc).await;
+        let mut sent = conn.drain(&mut tc).await;
+        {
+            // replies to calls are produced concurrently by forwarder tasks: list them last, by pid
+            let (mut replies, rest): (Vec<String>, Vec<String>) = sent.into_iter().partition(|f| f.starts_with("reply:"));
+            replies.sort_by_key(|f| f["reply:".len()..].parse::<u64>().unwrap_or(0));
+            sent = rest;
+            sent.extend(replies);
+        }
         if self.this_conn.is_none() {
             self.this_conn = tc;
         }
-        let probe = std::mem::take(&mut *self.log.lock().unwrap());
+        let mut probe = std::mem::take(&mut *self.log.lock().unwrap());
+        // grouped by target pid, arrival order kept per target (cross-actor order is scheduling)
+        probe.sort_by_key(|e| e.split(':').next().and_then(|p| p.parse::<u64>().ok()).unwrap_or(0));
         let cell = conn.cell.clone();
         let alive = cell.as_ref().map(|c| (c.get_status() as u8) < (ractor::ActorStatus::Stopping as u8)).unwrap_or(false);
         let children: Vec<ActorCell> = cell.as_ref().map(|c| c.get_children()).unwrap_or_default();
@@ -673,13 +718,13 @@ async fn note_killed(w: &mut World, log: &mut Log, st: &mut Stats, k: u64) {
 }
 
 /// environment fields of a `send` op, read off what the node did
-fn env_fields(w: &mut World, k: u64, sent: &[String], desc: &str) -> String {
+fn env_fields(w: &mut World, k: u64, sent: &[String], desc: &str, known: Option<String>) -> String {
     let mut check = "failed";
     let mut fresh = 0u32;
     let mut elected = 0;
     let mut pids = "-".to_string();
     let mut groups: Vec<String> = vec![];
-    let mut sessions = "none".to_string();
+    let mut sessions = known.unwrap_or("none".to_string());
     let mut cs: Vec<u32> = challenges_of(desc);
     if let Some(c) = w.conns.get(&k) {
         cs.extend(c.chals.iter().copied());
@@ -737,7 +782,23 @@ async fn op_send(w: &mut World, log: &mut Log, st: &mut Stats, k: u64, desc: &st
         log.rec(format!("send {k} {desc}"), "no-such-connection");
         return vec![];
     }
-    // the challenges of the frames the node sent earlier must stay in the table of this op
+    // what `GetSessions` lists right now (the `NodeSessions` handler asks for it in transitive mode)
+    let known = if desc.starts_with("nodesessions") {
+        match ractor::call_t!(w.node, NodeServerMessage::GetSessions, 1000) {
+            Ok(map) => {
+                let mut l: Vec<String> = map
+                    .values()
+                    .filter_map(|s| s.peer_name.as_ref())
+                    .map(|n| format!("{}^{}", word(&n.name), word(&n.connection_string)))
+                    .collect();
+                l.sort();
+                Some(if l.is_empty() { "-".to_string() } else { l.join(";") })
+            }
+            Err(_) => None,
+        }
+    } else {
+        None
+    };
     w.conns.get_mut(&k).unwrap().write(&bytes).await;
     let (obs, sent) = w.observe(k).await;
     st.bump("lts_send");
@@ -748,8 +809,41 @@ async fn op_send(w: &mut World, log: &mut Log, st: &mut Stats, k: u64, desc: &st
     if obs.contains("listed=1") {
         st.bump("lts_obs_listed");
     }
-    let env = env_fields(w, k, &sent, desc);
+    let env = env_fields(w, k, &sent, desc, known);
     log.rec(format!("send {k} {desc} {env}"), obs);
+    note_killed(w, log, st, k).await;
+    sent
+}
+
+/// Several frames written back-to-back (one write, no waiting for the node in between).
+async fn op_batch(w: &mut World, log: &mut Log, st: &mut Stats, k: u64, descs: &[String]) -> Vec<String> {
+    let mut bytes = Vec::new();
+    for d in descs {
+        match encode_desc(d) {
+            Some(b) => bytes.extend(b),
+            None => {
+                log.rec(format!("batch {k} {}", descs.join("+")), "unparsable-in-replay");
+                return vec![];
+            }
+        }
+    }
+    if !w.conns.contains_key(&k) {
+        return vec![];
+    }
+    w.conns.get_mut(&k).unwrap().write(&bytes).await;
+    let (obs, sent) = w.observe(k).await;
+    st.bump("lts_batch");
+    if obs.contains("probe=[") && !obs.contains("probe=[]") {
+        st.bump("lts_probe_delivery");
+    }
+    let joined = descs.join("+");
+    if let Some(c) = w.conns.get_mut(&k) {
+        for d in descs {
+            c.chals.extend(challenges_of(d));
+        }
+    }
+    let env = env_fields(w, k, &sent, &joined, None);
+    log.rec(format!("batch {k} {joined} {env}"), obs);
     note_killed(w, log, st, k).await;
     sent
 }
@@ -776,7 +870,7 @@ async fn op_open(w: &mut World, log: &mut Log, st: &mut Stats, k: u64, server: b
             if server { "server" } else { "client" },
             word(&w.name),
             word(w.this_conn.as_deref().unwrap_or("?")),
-            transitive as u8
+            (transitive || w.transitive) as u8
         ),
         format!("sent=[{}]", sent.join("|")),
     );
@@ -834,6 +928,30 @@ async fn op_drop(w: &mut World, log: &mut Log, st: &mut Stats, k: u64) {
     }
 }
 
+/// How many TCP connections the node opened to the address the adversary advertised.
+async fn op_connects(w: &mut World, log: &mut Log, st: &mut Stats) {
+    let Some(l) = w.bait.as_ref() else { return };
+    let mut n = 0;
+    // until no new connection has arrived for 4 consecutive rounds (at most 40 rounds)
+    let mut quiet = 0;
+    for _ in 0..40 {
+        std::thread::sleep(Duration::from_millis(5));
+        quiesce().await;
+        let before = n;
+        while let Ok((s, _)) = l.accept() {
+            drop(s);
+            n += 1;
+        }
+        quiet = if n == before { quiet + 1 } else { 0 };
+        if quiet >= 4 {
+            break;
+        }
+    }
+    st.bump("lts_connects_op");
+    st.add("lts_connects_seen", n);
+    log.rec("connects", n.to_string());
+}
+
 // ------------------------------------------------------------------ the adversary
 
 fn last_challenge(sent: &[String], server_side: bool) -> Option<u32> {
@@ -869,7 +987,8 @@ fn random_frame(w: &World, rng: &mut Rng, k: u64, chal: Option<u32>) -> String {
     let good = |c: u32| hex(&digest(COOKIE, c));
     let bad = |c: u32| hex(&digest("other-cookie", c));
     let c = chal.unwrap_or(17);
-    match rng.below(26) {
+    let roll = if w.bait.is_some() && rng.chance(1, 4) { 23 } else { rng.below(26) };
+    match roll {
         0 => format!("name:{}:{}:{}", rng.pick(&["evil@h", "peer@x", "-"]), rng.pick(&["evil:1".replace(':', "_").as_str(), "pc"]), rng.below(3)),
         1 => format!("sstatus:{}", rng.below(6)),
         2 => format!("cstatus:{}", rng.below(2)),
@@ -888,7 +1007,19 @@ fn random_frame(w: &World, rng: &mut Rng, k: u64, chal: Option<u32>) -> String {
         19 => "pong".into(),
         20 | 21 => format!("pgjoin:{}:{}:{}", rng.pick(&scopes), rng.pick(&groups), rng.pick(&remote_pids)),
         22 => format!("pgleave:{}:{}:{}", rng.pick(&scopes), rng.pick(&groups), rng.pick(&remote_pids)),
-        23 => format!("enum:{}:{}", rng.pick(&["evil@h", "q@h"]), "pc"),
+        23 => {
+            if let (Some(l), true) = (w.bait.as_ref(), rng.chance(2, 3)) {
+                let a = l.local_addr().map(|a| a.to_string()).unwrap_or("127.0.0.1:1".into()).replace(':', "~");
+                // a peer the node does not know (connect), itself (skip), the asking peer (skip)
+                match rng.below(3) {
+                    0 => format!("nodesessions:far@h^{a}"),
+                    1 => format!("nodesessions:{}^{a};far2@h^{a}", w.name),
+                    _ => "nodesessions:-".to_string(),
+                }
+            } else {
+                format!("enum:{}:{}", rng.pick(&["evil@h", "q@h"]), "pc")
+            }
+        }
         24 => "cempty".into(),
         _ => "netempty".into(),
     }
@@ -896,9 +1027,10 @@ fn random_frame(w: &World, rng: &mut Rng, k: u64, chal: Option<u32>) -> String {
 
 async fn lts_case(log: &mut Log, st: &mut Stats, rng: &mut Rng, case_no: u64) {
     let short = format!("node{}", case_no % 3);
-    let mut w = World::new(&short, case_no, false).await;
+    let transitive = case_no % 8 == 5;
+    let mut w = World::new(&short, case_no, transitive).await;
     let name = w.name.clone();
-    log.rec(format!("node {short}"), "ok");
+    log.rec(format!("node {short} transitive={}", transitive as u8), "ok");
     // local actors: a remotable probe in a group, a non-remotable one in a group, a remotable loner
     w.spawn_probe(true, Some(("sc", "g1"))).await;
     w.spawn_probe(false, Some(("sc", "g1"))).await;
@@ -912,7 +1044,7 @@ async fn lts_case(log: &mut Log, st: &mut Stats, rng: &mut Rng, case_no: u64) {
     let mut sent = op_open(&mut w, log, st, k, server_side, false).await;
     let knows_cookie = mode < 5;
     let mut chal: Option<u32> = last_challenge(&sent, server_side);
-    let peer = if mode == 9 { name.clone() } else { "evil@h".to_string() };
+    let peer = if mode == 9 { name.clone() } else { rng.pick(&["evil@h", "zed@h"]).to_string() };
     // phase 1: a handshake attempt (possibly with deviations)
     if mode != 8 {
         // pre-authentication noise
@@ -954,6 +1086,17 @@ async fn lts_case(log: &mut Log, st: &mut Stats, rng: &mut Rng, case_no: u64) {
             }
         }
     }
+    // a burst right behind a (possibly wrong) digest: must not slip through before the stop
+    if mode == 8 && server_side {
+        let sent = op_send(&mut w, log, st, k, &format!("name:{peer}:pc:1")).await;
+        if let Some(c) = last_challenge(&sent, true) {
+            let rem = w.rem_now();
+            let target = rem.first().copied().unwrap_or(1);
+            let dg = if rng.chance(1, 2) { hex(&digest(COOKIE, c)) } else { hex(&digest("other-cookie", c)) };
+            let fs = vec![format!("cchal:9:{dg}"), format!("cast:{target}"), "spawn:1,2".to_string(), "pgjoin:sc:g2:1".to_string()];
+            op_batch(&mut w, log, st, k, &fs).await;
+        }
+    }
     // phase 2: whatever the outcome, the peer now tries everything
     let steps = rng.range(4, 12);
     let mut tags = 0;
@@ -966,6 +1109,28 @@ async fn lts_case(log: &mut Log, st: &mut Stats, rng: &mut Rng, case_no: u64) {
                 op_garbage(&mut w, log, st, k, &g).await
             }
             3 if i > 6 => op_drop(&mut w, log, st, k).await,
+            4 | 5 => {
+                // a burst: the peer does not wait for answers (only frames whose handling needs no
+                // further answer from the environment)
+                let n = rng.range(2, 4);
+                let mut fs = Vec::new();
+                for _ in 0..n {
+                    let f = random_frame(&w, rng, k, chal);
+                    let head = f.split(':').next().unwrap().to_string();
+                    if ["cast", "call", "reply", "nempty", "ready", "spawn", "term", "ping", "pong", "pgjoin", "pgleave", "cempty", "netempty", "aempty", "cstatus", "sstatus"].contains(&head.as_str()) {
+                        if head == "call" {
+                            tags += 1;
+                            let to = f.split(':').nth(1).unwrap().to_string();
+                            fs.push(format!("call:{to}:{tags}"));
+                        } else {
+                            fs.push(f);
+                        }
+                    }
+                }
+                if fs.len() >= 2 {
+                    op_batch(&mut w, log, st, k, &fs).await;
+                }
+            }
             _ => {
                 let mut f = random_frame(&w, rng, k, chal);
                 if f.starts_with("call:") {
@@ -978,11 +1143,11 @@ async fn lts_case(log: &mut Log, st: &mut Stats, rng: &mut Rng, case_no: u64) {
         }
     }
     // a second session while the first may still be up: same or different peer name
-    if rng.chance(1, 3) {
+    if rng.chance(1, 3) || (knows_cookie && rng.chance(1, 2)) {
         let k2 = 1u64;
         let srv2 = rng.chance(2, 3);
         let s2 = op_open(&mut w, log, st, k2, srv2, false).await;
-        let peer2 = if rng.chance(1, 2) { peer.clone() } else { "other@h".to_string() };
+        let peer2 = if rng.chance(2, 3) { peer.clone() } else { "other@h".to_string() };
         if srv2 {
             let s = op_send(&mut w, log, st, k2, &format!("name:{peer2}:pc2:{}", rng.below(3))).await;
             if let Some(c) = last_challenge(&s, true) {
@@ -1003,6 +1168,94 @@ async fn lts_case(log: &mut Log, st: &mut Stats, rng: &mut Rng, case_no: u64) {
             let f = random_frame(&w, rng, kk, None);
             op_send(&mut w, log, st, kk, &f).await;
         }
+    }
+    op_connects(&mut w, log, st).await;
+    w.shutdown().await;
+}
+
+// ------------------------------------------------------------------ wire faults close one session only (C19)
+
+/// A full, correct handshake on connection `k` as a peer that knows the cookie; returns whether
+/// the node ended up sending `ready`.
+async fn good_handshake(w: &mut World, log: &mut Log, st: &mut Stats, rng: &mut Rng, k: u64, server_side: bool, peer: &str) -> bool {
+    let good = |c: u32| hex(&digest(COOKIE, c));
+    if server_side {
+        let sent = op_send(w, log, st, k, &format!("name:{peer}:pc{k}:{}", rng.below(3))).await;
+        if let Some(c) = last_challenge(&sent, true) {
+            let s = op_send(w, log, st, k, &format!("cchal:{}:{}", rng.below(1000), good(c))).await;
+            return s.iter().any(|f| f == "ready");
+        }
+        false
+    } else {
+        op_send(w, log, st, k, "sstatus:0").await;
+        let sent = op_send(w, log, st, k, &format!("schal:{peer}:pc{k}:{}", rng.below(1000))).await;
+        if let Some(c) = last_challenge(&sent, false) {
+            let s = op_send(w, log, st, k, &format!("sack:{}", good(c))).await;
+            return s.iter().any(|f| f == "ready");
+        }
+        false
+    }
+}
+
+/// One session is hit by a framing fault (undecodable payload, a declared length one byte over
+/// the limit / absurdly large without any payload, a truncated frame followed by EOF); it must
+/// close, and the node must go on serving: a fresh session authenticates and reaches the probe.
+async fn wire_case(log: &mut Log, st: &mut Stats, rng: &mut Rng, case_no: u64) {
+    let short = format!("node{}", case_no % 3);
+    let mut w = World::new(&short, 500_000 + case_no, false).await;
+    log.rec(format!("node {short} transitive=0"), "ok");
+    let probe = w.spawn_probe(true, Some(("sc", "g1"))).await;
+    w.spawn_probe(false, None).await;
+    let server_side = rng.chance(1, 2);
+    op_open(&mut w, log, st, 0, server_side, false).await;
+    let stage = rng.below(3); // fault before / in the middle of / after the handshake
+    if stage == 2 {
+        good_handshake(&mut w, log, st, rng, 0, server_side, "evil@h").await;
+    } else if stage == 1 {
+        if server_side {
+            op_send(&mut w, log, st, 0, "name:evil@h:pc:1").await;
+        } else {
+            op_send(&mut w, log, st, 0, "sstatus:0").await;
+        }
+    }
+    let max = ractor_cluster::DEFAULT_MAX_INBOUND_FRAME_SIZE;
+    let fault: Vec<u8> = match rng.below(6) {
+        0 => vec![0, 0, 0, 0, 0, 0, 0, 1, 0xff],
+        1 => (max + 1).to_be_bytes().to_vec(),
+        2 => u64::MAX.to_be_bytes().to_vec(),
+        3 => ((isize::MAX as u64) + 1).to_be_bytes().to_vec(),
+        4 => {
+            let mut v = 3u64.to_be_bytes().to_vec();
+            v.extend_from_slice(&[0x0a, 0x05, 0x01]); // length-delimited field running past the end
+            v
+        }
+        _ => {
+            let mut v = (max + 1).to_be_bytes().to_vec();
+            v.extend_from_slice(&[1, 2, 3, 4, 5, 6, 7, 8, 9]);
+            v
+        }
+    };
+    st.bump("wire_fault");
+    op_garbage(&mut w, log, st, 0, &fault).await;
+    if rng.chance(1, 3) {
+        // a truncated frame on yet another session, then EOF
+        op_open(&mut w, log, st, 2, true, false).await;
+        let mut v = 100u64.to_be_bytes().to_vec();
+        v.extend_from_slice(&[1, 2, 3]);
+        if let Some(c) = w.conns.get_mut(&2) {
+            c.write(&v).await;
+        }
+        op_drop(&mut w, log, st, 2).await;
+    }
+    // the node is still in business
+    let srv2 = rng.chance(1, 2);
+    op_open(&mut w, log, st, 1, srv2, false).await;
+    let ok = good_handshake(&mut w, log, st, rng, 1, srv2, "friend@h").await;
+    log.rec("survived", (ok as u8).to_string());
+    if ok {
+        st.bump("wire_node_survived");
+        op_send(&mut w, log, st, 1, &format!("cast:{probe}")).await;
+        op_send(&mut w, log, st, 1, &format!("call:{probe}:1")).await;
     }
     w.shutdown().await;
 }
@@ -1068,6 +1321,9 @@ async fn replay_ops(log: &mut Log, st: &mut Stats, path: &str) {
     let text = std::fs::read_to_string(path).unwrap_or_default();
     let mut world: Option<World> = None;
     let mut case_no = 900_000u64;
+    // per connection: the challenge the node issued in the recorded run / in this run
+    let mut rec_issued: BTreeMap<u64, u32> = BTreeMap::new();
+    let mut cur_issued: BTreeMap<u64, u32> = BTreeMap::new();
     for line in text.lines() {
         let w: Vec<&str> = line.split_whitespace().collect();
         st.bump("replayed_ops");
@@ -1075,12 +1331,13 @@ async fn replay_ops(log: &mut Log, st: &mut Stats, path: &str) {
             ["srv", s, m, ..] => do_srv(log, st, s, m),
             ["srvstart", s, ..] => do_srvstart(log, st, s),
             ["cli", s, m, ..] => do_cli(log, st, s, m),
-            ["node", name] => {
+            ["node", name, rest @ ..] => {
                 if let Some(w) = world.take() {
                     w.shutdown().await;
                 }
                 case_no += 1;
-                let mut nw = World::new(name, case_no, false).await;
+                let transitive = rest.iter().any(|x| *x == "transitive=1");
+                let mut nw = World::new(name, case_no, transitive).await;
                 nw.spawn_probe(true, Some(("sc", "g1"))).await;
                 nw.spawn_probe(false, Some(("sc", "g1"))).await;
                 world = Some(nw);
@@ -1090,11 +1347,45 @@ async fn replay_ops(log: &mut Log, st: &mut Stats, path: &str) {
                 let k: u64 = k.parse().unwrap_or(0);
                 op_open(world.as_mut().unwrap(), log, st, k, *side == "server", false).await;
             }
-            ["send", k, desc, ..] if world.is_some() => {
+            ["send", k, desc, rest @ ..] if world.is_some() => {
                 let k: u64 = k.parse().unwrap_or(0);
-                // recorded digests refer to the challenges of the recorded run: re-target them at the
-                // challenge this run's node issued when the recorded digest was the right one
-                op_send(world.as_mut().unwrap(), log, st, k, desc).await;
+                // recorded digests refer to the challenges of the recorded run: when the recorded
+                // digest was the right one for the challenge issued then, present the right one for
+                // the challenge this run's node issued
+                let mut d = desc.to_string();
+                if let (Some(rc), Some(cc)) = (rec_issued.get(&k), cur_issued.get(&k)) {
+                    let right_then = hex(&digest(COOKIE, *rc));
+                    if d.ends_with(&format!(":{right_then}")) {
+                        d = format!("{}:{}", &d[..d.len() - right_then.len() - 1], hex(&digest(COOKIE, *cc)));
+                    }
+                }
+                let w0 = world.as_mut().unwrap();
+                if d.starts_with("nodesessions:") {
+                    if let Some(a) = w0.bait.as_ref().and_then(|l| l.local_addr().ok()) {
+                        // the advertised address of the recorded run -> this run's listener
+                        let parts: Vec<String> = d["nodesessions:".len()..]
+                            .split(';')
+                            .map(|e| match e.split_once('^') {
+                                Some((n, c)) if c.starts_with("127.0.0.1~") => format!("{n}^{}", a.to_string().replace(':', "~")),
+                                _ => e.to_string(),
+                            })
+                            .collect();
+                        d = format!("nodesessions:{}", parts.join(";"));
+                    }
+                }
+                let server_side = w0.conns.get(&k).map(|c| c.is_server).unwrap_or(true);
+                let sent = op_send(w0, log, st, k, &d).await;
+                if let Some(f) = rest.iter().find_map(|x| x.strip_prefix("fresh=")).and_then(|x| x.parse::<u32>().ok()).filter(|x| *x != 0) {
+                    rec_issued.insert(k, f);
+                }
+                if let Some(c) = last_challenge(&sent, server_side) {
+                    cur_issued.insert(k, c);
+                }
+            }
+            ["batch", k, descs, ..] if world.is_some() => {
+                let k: u64 = k.parse().unwrap_or(0);
+                let fs: Vec<String> = descs.split('+').map(|x| x.to_string()).collect();
+                op_batch(world.as_mut().unwrap(), log, st, k, &fs).await;
             }
             ["local", _k, what, pid, ..] if world.is_some() => {
                 // one recorded line per open session: execute once (for the first), skip the rest
@@ -1108,6 +1399,8 @@ async fn replay_ops(log: &mut Log, st: &mut Stats, path: &str) {
                 op_garbage(world.as_mut().unwrap(), log, st, k.parse().unwrap_or(0), &unhex(h).unwrap_or_default()).await
             }
             ["drop", k] if world.is_some() => op_drop(world.as_mut().unwrap(), log, st, k.parse().unwrap_or(0)).await,
+            ["connects"] if world.is_some() => op_connects(world.as_mut().unwrap(), log, st).await,
+            ["killed", ..] => {} // re-derived from what happens in this run
             ["authz", ..] => log.rec(line, "unsupported-in-replay: pids are not stable across runs"),
             _ => log.rec(line, "unsupported-in-replay"),
         }
@@ -1127,7 +1420,13 @@ async fn run(args: Args) {
     for f in args.str("replay-ops", "").split(',').filter(|f| !f.is_empty()) {
         replay_ops(&mut log, &mut st, f).await;
     }
-    if args.u64("only-replay", 0) != 1 {
+    let wire_cases = args.u64("wire-cases", 0);
+    if wire_cases > 0 {
+        // the C19 liveness engine: only the wire-fault scenarios
+        for c in 0..wire_cases {
+            wire_case(&mut log, &mut st, &mut rng, c).await;
+        }
+    } else if args.u64("only-replay", 0) != 1 {
         fsm_part(&mut log, &mut st, &mut rng, cases);
         authz_part(&mut log, &mut st, &mut rng, cases).await;
         for c in 0..cases {
@@ -1142,6 +1441,7 @@ async fn run(args: Args) {
 
 fn main() {
     let args = Args::parse();
+    start_watchdog("c17");
     let rt = tokio::runtime::Builder::new_current_thread().enable_all().start_paused(true).build().unwrap();
     rt.block_on(run(args));
 }
